@@ -316,6 +316,12 @@ C04_Links(ents, r) ==
                           ELSE r.vehicles[i].body.id = None /\ r.vehicles[i].body = VehicleOfVP(ents[a[2].ent]))
          => IsNone(r.vehicles[i].trip)
 
+(* whatever is linked is linked both ways (holds of every conflict-free message, also when one entity carries *)
+(* several payloads, whichever of them a parser chooses to use)                                              *)
+C04_LinksMutual(r) ==
+    /\ \A i \in DOMAIN r.trips : IsSome(r.trips[i].veh) => Val(r.trips[i].veh).mutual
+    /\ \A j \in DOMAIN r.vehicles : IsSome(r.vehicles[j].trip) => Val(r.vehicles[j].trip).mutual
+
 (* C07 *)
 C07_UniqueTrips(r) == \A a, b \in DOMAIN r.trips : r.trips[a].key = r.trips[b].key => a = b
 C07_TripsSorted(r) == \A i \in 1..(Len(r.trips) - 1) : KeyLess(r.trips[i].key, r.trips[i + 1].key)
